@@ -66,6 +66,11 @@ def run_check(spec: Spec, tier: str, seed: int, replay: str | None = None) -> in
     T = C.Timer()
     pid = spec.pid
     print(f'[{pid}] tier={tier} seed={seed} repo={C.REPO}')
+    if C.REPLAY_DIR.exists():
+        for old in C.REPLAY_DIR.glob(f'{pid}-{seed}-*.json'):
+            if replay and str(old.resolve()) == str(__import__('pathlib').Path(replay).resolve()):
+                continue
+            old.unlink()
     violations = []        # (what, replay payload)
     known_hits = Counter()
     broken = []
